@@ -386,19 +386,22 @@ func runC13(c *Ctx) {
 		dereg := p.Method("sonic", "IO", "Deregister")
 		eventsF := p.Field("internal", "Slot", "Events")
 		n := 0
-		eachInstr(dereg, func(in ssa.Instruction) {
-			drops := false
+		isDrop := func(in ssa.Instruction) bool {
 			if st, ok := in.(*ssa.Store); ok {
 				if _, isIA := st.Addr.(*ssa.IndexAddr); isIA && isNil(st.Val) {
-					drops = true
+					return true
 				}
 			}
 			if call, ok := in.(*ssa.Call); ok {
 				if b, ok := call.Call.Value.(*ssa.Builtin); ok && b.Name() == "delete" {
-					drops = true
+					return true
 				}
 			}
-			if !drops {
+			return false
+		}
+		eachInstr(dereg, func(in ssa.Instruction) {
+			// the table may be a type of its own whose method does the dropping: judged at the call in Deregister
+			if !doesDeep(in, isDrop) {
 				return
 			}
 			n++
